@@ -10,6 +10,7 @@ import (
 	"encoding/json"
 	"fmt"
 	"math/big"
+	"os"
 	"sort"
 	"strconv"
 	"strings"
@@ -988,6 +989,25 @@ func (s *FW) hist(name, bucket string) {
 	}
 }
 
+// routesOf names the routes of the transfers of a history (distinct, in order of first use).
+func (s *FW) routesOf(e *ext) string {
+	var names []string
+	for _, x := range e.Xfers {
+		n := s.Routes[x.Route].Name
+		dup := false
+		for _, m := range names {
+			dup = dup || m == n
+		}
+		if !dup {
+			names = append(names, n)
+		}
+	}
+	if len(names) == 0 {
+		return "no-transfer"
+	}
+	return strings.Join(names, "+")
+}
+
 func (s *FW) kindName(x xfer) string {
 	return fmt.Sprintf("%s/%s", native(x.Kind), s.Routes[x.Route].Name)
 }
@@ -1031,7 +1051,7 @@ func (s *FW) conservation(w *ksim.World) *ksim.Fail {
 			}
 			if esc.Cmp(new(big.Int).Add(sup, transit)) != 0 {
 				return &ksim.Fail{
-					Key: fmt.Sprintf("conservation/%s/link%d-%d", native(k), l, l+1),
+					Key: fmt.Sprintf("conservation/%s/link%d-%d/%s", native(k), l, l+1, s.routesOf(e)),
 					Text: fmt.Sprintf("token %s on link %d-%d: escrow on chain %d (%s) holds %s, voucher supply on chain %d is %s, in transit %s %v",
 						native(k), l, l+1, src, s.chanOn(src, snk), esc, snk, sup, transit, moving),
 				}
@@ -1254,6 +1274,7 @@ func run(c *core.C) {
 	if c.Quick() {
 		add("outcomes", &FW{N: 3, Kinds: []int{0, 1, 2}, Routes: []route{routeABC}, Variants: allRetries, MaxXfers: 1, Toggles: 1, ToggleOn: []int{1, 2}}, 12, 0.3)
 		add("first-hop-timeout", &FW{N: 3, Kinds: []int{0, 1, 2}, Routes: []route{routeABC}, Variants: []variant{{Retries: 0, TmoS: 30, P1Tmo: 600}}, MaxXfers: 1, Toggles: 1, ToggleOn: []int{1}}, 10, 0.2)
+		add("bounce", &FW{N: 3, Kinds: []int{0, 1, 2}, Routes: []route{routeABA}, Variants: allRetries, MaxXfers: 1, Toggles: 1, ToggleOn: []int{0, 1}}, 12, 0.3)
 		add("deviations", &FW{N: 3, Kinds: []int{0, 1, 2}, Routes: []route{routeABC}, Variants: few, MaxXfers: 1, Syncs: 1, Prims: true}, 12, 0.4)
 		add("two-transfers", &FW{N: 3, Kinds: []int{0, 1, 2}, Routes: []route{routeABC}, Variants: few[:1], MaxXfers: 2}, 12, 0.6)
 		add("micro-ack-path", &FW{N: 3, Kinds: []int{1}, Routes: []route{routeABC}, Variants: few[:1], MaxXfers: 1, Micro: true, Commits: 2,
@@ -1272,6 +1293,16 @@ func run(c *core.C) {
 		add("micro-timeout-race", &FW{N: 3, Kinds: []int{1}, Routes: []route{routeABC}, Variants: []variant{{Retries: 1, TmoS: 15}}, MaxXfers: 1, Micro: true, Commits: 3,
 			StepOf: []time.Duration{0, 0, 20 * time.Second},
 			Prefix: []ksim.Op{{K: "xfer", A: []int{1, 0, 0}}, {K: "relay", A: []int{0}}}}, 9, 0)
+	}
+	if only := os.Getenv("C43_ONLY"); only != "" && c.Replay == "" { // development aid: run a subset of the parts
+		var sel []ksim.Part
+		for _, p := range parts {
+			if strings.Contains(","+only+",", ","+p.Name+",") {
+				sel = append(sel, p)
+			}
+		}
+		parts = sel
+		c.Set("parts_selected", only)
 	}
 	ksim.RunParts(c, parts, [][]ksim.Op{
 		{{K: "xfer", A: []int{1, 0, 1}}, {K: "relay", A: []int{0}}, {K: "relay", A: []int{1}}, {K: "ack", A: []int{1}}, {K: "ack", A: []int{0}}},
